@@ -305,6 +305,18 @@ impl BudgetEnforcer {
     ///
     /// Returns `Err(BudgetBreach)` as soon as a limit is exceeded.
     pub fn observe(&mut self, ev: &Event) -> Result<(), BudgetBreach> {
+        if self.policy == EnforcingPolicy::PerDocument && matches!(ev, Event::DocumentStart(_)) {
+            // Everything that is counted per document starts from zero again: the report
+            // (the event count included - also after a document that exceeded it), the
+            // nesting depth (events skipped during error recovery never reach `observe`, so
+            // the depth may not be back at zero) and the set of anchors defined so far
+            // (anchor ids are unique across the whole stream).
+            self.report.reset();
+            self.depth = 0;
+            self.containers.clear();
+            self.defined_anchors.clear();
+            return Ok(());
+        }
         self.report.events += 1;
         if self.report.events > self.budget.max_events {
             return Err(BudgetBreach::Events {
@@ -385,22 +397,12 @@ impl BudgetEnforcer {
                 self.handle_alias();
             }
             Event::DocumentStart(_explicit) => {
-                if self.policy == EnforcingPolicy::PerDocument {
-                    // Everything that is counted per document starts from zero again: the
-                    // report, the nesting depth (events skipped during error recovery never
-                    // reach `observe`, so the depth may not be back at zero) and the set of
-                    // anchors defined so far (anchor ids are unique across the whole stream).
-                    self.report.reset();
-                    self.depth = 0;
-                    self.containers.clear();
-                    self.defined_anchors.clear();
-                } else {
-                    self.report.documents += 1;
-                    if self.report.documents > self.budget.max_documents {
-                        return Err(BudgetBreach::Documents {
-                            documents: self.report.documents,
-                        });
-                    }
+                // (`PerDocument` is handled above.)
+                self.report.documents += 1;
+                if self.report.documents > self.budget.max_documents {
+                    return Err(BudgetBreach::Documents {
+                        documents: self.report.documents,
+                    });
                 }
             }
             Event::DocumentEnd => {}
